@@ -415,7 +415,9 @@ impl ReadXml for Reply {
                     loop {
                         match reader.read_resolved_event()? {
                             (ResolveResult::Bound(xmlns::BASE), Event::Empty(tag))
-                                if tag.local_name().as_ref() == b"ok" && this.is_none() =>
+                                if tag.local_name().as_ref() == b"ok"
+                                    && this.is_none()
+                                    && !errors.has_error_severity() =>
                             {
                                 tracing::debug!(?tag);
                                 this = Some(Self::Ok);
